@@ -107,6 +107,28 @@ def generate(rng, tier='quick', kind=None, mode='history', **kw):
       t += rng.choice([0.1, 0.3, 0.5, 0.8, 1.1])
       ops.append({'t': round(t, 3), 'op': rng.choice(['leave', 'join', 'leave']), 'member': rng.randrange(n)})
     return {'world': 'w_bal', 'cfg': cfg, 'ops': ops, 'mode': 'jitter'}
+  if kind == 'aperture' and mode == 'history' and rng.random() < 0.1:
+    # several initial members of which all but one take a while to connect (the
+    # balancer reports open as soon as the first one is up); requests arrive
+    # back to back right away, so that a member that is still opening sits on
+    # top of the heap when the next request is dispatched.  No failures.
+    mn = rng.randint(2, 3)
+    n = mn + rng.randint(1, 3)
+    cfg.update({'n': n, 'initial': list(range(n)), 'get_delay': 0, 'init_failures': 0, 'open_delay': 0,
+                'open_sync': True,
+                'slow_members': dict(('m%d:%d' % (i, 2000 + i), rng.choice([0.3, 1.0, 3.0])) for i in range(n)
+                                     if rng.random() < 0.7)})
+    cfg['aperture'] = {'min_size': mn, 'max_size': rng.choice([mn, mn, mn + 1, 2 ** 31]), 'min_load': 0.5,
+                       'max_load': 2.0, 'jitter_min_sec': 0, 'jitter_max_sec': 5}
+    t = 0.0
+    for i in range(rng.randint(2, 2 * mn + 2)):
+      ops.append({'t': round(t, 6), 'op': 'call', 'id': 'c%d' % i, 'timeout': 5.0,
+                  'svc': rng.choice([0.05, 0.2, 0.5]), 'kind': 'ok'})
+      t += rng.choice([0.0, 0.0, 0.001, 0.01])
+    for i in range(100, 100 + rng.randint(0, 10)):
+      t += rng.choice([0.2, 0.5])
+      ops.append({'t': round(t, 6), 'op': 'call', 'id': 'c%d' % i, 'timeout': 5.0, 'svc': 0.01, 'kind': 'ok'})
+    return {'world': 'w_bal', 'cfg': cfg, 'ops': ops, 'mode': 'history'}
   n_ops = rng.randint(20, 120 if not big else 400)
   cid = 0
   for _ in range(n_ops):
